@@ -105,6 +105,10 @@ def build_form(coefs: list[int], sps: list[Any], rng: Any) -> Any:
         else:
             terms.append((c + 1) * p - p)
     c0 = coefs[d]
+    if not terms and sps and rng.random() < 0.5:
+        # a constant written with a parameter that cancels: (p + c0) - p, identically c0
+        p = rng.choice(sps)
+        return (p + c0) - p if rng.random() < 0.5 else (c0 + p) - p
     if c0 != 0 or not terms or rng.random() < 0.2:
         if rng.random() < 0.3 and terms:
             terms.append(c0 + 5)
@@ -157,7 +161,8 @@ def check_pair(case: dict[str, Any], col: common.Collector) -> None:
     nonneg = all(aff_val(e1c, g) >= 0 and aff_val(e2c, g) >= 0 for g in
                  itertools.product((0, 1, 2, 5), repeat=d)) and \
         all(c >= 0 for c in e1c[:d] + e2c[:d])
-    if nonneg and isinstance(f1, pt.Array) and isinstance(f2, pt.Array):
+    if nonneg and (isinstance(f1, pt.Array) or isinstance(f2, pt.Array)):
+        # (one side may be a plain int: an integer length meeting a symbolic form)
         one1 = all(aff_val(e1c, g) == 1 for g in grid)
         one2 = all(aff_val(e2c, g) == 1 for g in grid)
         x = pt.make_placeholder("x", (f1, 3), np.float64)
@@ -201,6 +206,57 @@ def check_pair(case: dict[str, Any], col: common.Collector) -> None:
                     col.violation("C16:broadcast-shape", f"result axis {got} != {want} at {env}",
                                   wit)
                     break
+        # ... and the VALUE of the broadcast (the subscripts the lambda was given decide
+        # which axis is stretched), both operand orders, at three valuations
+        if acc:
+            from vf.oracle import refeval
+            for (aa, bb, oname) in ((x, y, "x+y"), (y, x, "y+x")):
+                try:
+                    rr_ = aa + bb
+                except Exception:  # noqa: BLE001
+                    continue
+                for g in ((2,) * d, (1,) * d, (3,) + (2,) * (d - 1)):
+                    n1, n2 = aff_val(e1c, g), aff_val(e2c, g)
+                    if n1 < 0 or n2 < 0 or not (n1 == n2 or n1 == 1 or n2 == 1):
+                        continue
+                    rs = np.random.default_rng(case["fseed"] & 0xFFFF)
+                    xv = rs.integers(-4, 5, size=(n1, 3)).astype(np.float64)
+                    yv = rs.integers(-4, 5, size=(n2, 3)).astype(np.float64)
+                    env = dict(zip(PARAMS[:d], g))
+                    env.update({"x": xv, "y": yv})
+                    col.count("mon.broadcast_values")
+                    try:
+                        gotv = np.asarray(refeval.RefEval(env)(rr_))
+                    except Exception as e:  # noqa: BLE001
+                        col.violation(f"C16:broadcast-value-unevaluable:{type(e).__name__}",
+                                      f"{oname} at {dict(zip(PARAMS[:d], g))}: {str(e)[:100]}",
+                                      wit)
+                        break
+                    if gotv.shape != (xv + yv).shape or not np.array_equal(gotv, xv + yv):
+                        col.violation("C16:broadcast-value",
+                                      f"{oname} with first axes {e1c} / {e2c} at "
+                                      f"{dict(zip(PARAMS[:d], g))}: the lambda's value differs "
+                                      "from NumPy's broadcast", wit)
+                        break
+        # shapes of unequal rank are never equal, whatever their common prefix
+        col.count("mon.acceptance_decisions")
+        z = pt.make_placeholder("z", (f1,), np.float64)
+        for s1, s2 in ((x.shape, z.shape), (z.shape, x.shape), ((), z.shape), (z.shape, ())):
+            try:
+                if are_shapes_equal(s1, s2):
+                    col.violation("C16:are_shapes_equal:unequal-rank",
+                                  f"shapes of rank {len(s1)} and {len(s2)} declared equal", wit)
+                    break
+            except Exception as e:  # noqa: BLE001
+                col.violation(f"C16:equality-raises:{type(e).__name__}@{common.exc_site(e)}",
+                              str(e)[:120], wit)
+                break
+        try:
+            pt.stack([z, x])
+            col.violation("C16:stack-acceptance:unequal-rank",
+                          "pt.stack accepts operands of rank 1 and 2", wit)
+        except Exception:  # noqa: BLE001
+            pass
         # stack
         col.count("mon.acceptance_decisions")
         try:
